@@ -20,15 +20,21 @@ MAGNITUDE = 0.25
 
 
 class DesignSampler(Sampler):
+    """A sampler with a fixed design: it builds its array once and hands the same object out at every call (the library
+    must not scale or clip it in place)."""
+
     def __init__(self, enopt_config, sampler_index, mask, rng):  # noqa: ARG002
         self._mask = mask
+        self._stored = None
 
     def generate_samples(self):
-        d = np.array(DesignPlugin.design, dtype=np.float64)
-        if self._mask is not None:
-            d = np.where(self._mask, d, 0.0)          # the sampler contract: zero for variables not handled
+        if self._stored is None:
+            d = np.array(DesignPlugin.design, dtype=np.float64)
+            if self._mask is not None:
+                d = np.where(self._mask, d, 0.0)          # the sampler contract: zero for variables not handled
+            self._stored = d
         DesignPlugin.calls += 1
-        return d
+        return self._stored
 
 
 class DesignPlugin(SamplerPlugin):
